@@ -16,6 +16,7 @@ pub const ASSUMPTIONS: &[&str] = &[
     "an interrupted std::fs::write leaves a byte prefix of the new content (incl. the empty file)",
     "the process runs as root: 'not writable' = missing directory / regular file in place of the directory / directory in place of the file",
     "the bulk of the states runs without the bundled data directory",
+    "fault transitions: an EDIT always advances the modification time; a time stamp only goes backwards while the content is the one the context has already seen (the engine reloads on an advancing time stamp - C11's anchor)",
 ];
 
 #[derive(Clone, Debug, PartialEq, Eq, Hash)]
@@ -394,6 +395,9 @@ pub enum Trans {
     /// rename the whole user directory away / back (untouched)
     DirAway,
     DirBack,
+    /// the modification time of the existing file goes BACKWARDS, content unchanged (a backup put back with its old
+    /// time stamp, a clock that was stepped): nothing to reload, and certainly nothing to fall over
+    TouchOlder,
 }
 
 const T_DOCS: &[&str] = &[
@@ -427,7 +431,11 @@ pub fn check_transitions(steps: &[(Trans, bool)], english: bool, st: &mut Stats)
     let mut live = Ctx::new_at(opts, sb.base()).map_err(pf)?;
     let mut removed: Option<(Vec<u8>, std::time::SystemTime)> = None;
     let mut kinds = BTreeSet::new();
+    let mut dirty = false;
     for (i, (t, update)) in steps.iter().enumerate() {
+        if !matches!(t, Trans::TouchOlder) {
+            dirty = true;
+        }
         match t {
             Trans::WriteAc(k) => write(T_DOCS[*k as usize % T_DOCS.len()].as_bytes(), &mut clock),
             Trans::DamageAc(k) => write(T_BAD[*k as usize % T_BAD.len()].as_bytes(), &mut clock),
@@ -452,6 +460,17 @@ pub fn check_transitions(steps: &[(Trans, bool)], english: bool, st: &mut Stats)
                     kinds.insert("dir-away");
                 }
             }
+            Trans::TouchOlder => {
+                // only while the context has seen the present content (an edit whose time stamp does not advance is
+                // outside the domain: the engine is documented to reload when the modification time advances)
+                if ac.is_file() && !dirty {
+                    if let Ok(m) = std::fs::metadata(&ac).and_then(|m| m.modified()) {
+                        let older = m - Duration::from_secs(5000);
+                        std::fs::File::options().write(true).open(&ac).expect("open").set_modified(older).expect("set mtime");
+                        kinds.insert("touch-older");
+                    }
+                }
+            }
             Trans::DirBack => {
                 if away.is_dir() && !sb.user_dir().exists() {
                     std::fs::rename(&away, sb.user_dir()).expect("rename back");
@@ -463,6 +482,7 @@ pub fn check_transitions(steps: &[(Trans, bool)], english: bool, st: &mut Stats)
             continue;
         }
         live.update(opts, &sb).map_err(pf)?;
+        dirty = false;
         let fresh = Ctx::new_at(opts, sb.base()).map_err(pf)?;
         for w in T_PROBES {
             let mut sel = 0u8;
@@ -483,6 +503,9 @@ pub fn check_transitions(steps: &[(Trans, bool)], english: bool, st: &mut Stats)
             fresh.finish().map_err(pf)?;
         }
     }
+    if kinds.contains("touch-older") {
+        st.label("modification-time-went-backwards");
+    }
     if kinds.contains("restore") || kinds.contains("dir-back") {
         st.label("file-or-directory-came-back-untouched");
     }
@@ -500,6 +523,7 @@ fn trans_strategy() -> impl Strategy<Value = (Vec<(Trans, bool)>, bool)> {
         3 => Just(Trans::RestoreAc),
         2 => Just(Trans::DirAway),
         3 => Just(Trans::DirBack),
+        2 => Just(Trans::TouchOlder),
     ];
     (proptest::collection::vec((t, proptest::bool::weighted(0.75)), 2..8), any::<bool>())
 }
@@ -683,6 +707,7 @@ pub fn run(run: &Run) {
     }
     run.sharded("fault-transitions-under-a-live-context", 16, run.tier.pick(60, 1500), 200, trans_strategy, |_| (), |(steps, english): &(Vec<(Trans, bool)>, bool), st, _| check_transitions(steps, *english, st));
     run.require_label("file-or-directory-came-back-untouched", 50);
+    run.require_label("modification-time-went-backwards", 50);
     run.require_label("unreadable-compared-with-absent", 100);
     run.require_label("directory-fault", 5);
     run.require_label("late-injection-before-update-engine", 100);
